@@ -126,12 +126,12 @@ CLAIMED = {
         "storage name is no identifier of any line and binding it leaves every variable a program can name unchanged; the call itself: entering puts "
         "the return address under the arguments with the first argument on top and control at the function's code; the parameter stores, the code "
         "of a body free of nested calls and RETURN then leave the body's value -- evaluated with the parameters bound and every other variable as it "
-        "is at call time -- on the caller's stack, whatever lies below untouched, and return behind the call (Props/C10.v, Proofs/LexIdent.v, "
-        "FnCall.v, FnBody.v).",
+        "is at call time -- on the caller's stack, whatever lies below untouched, and return behind the call; and DEF FN emits exactly that sequence: "
+        "parameter count, DEF, a jump over the body, one store per parameter, the body's code, RETURN (Props/C10.v, Proofs/LexIdent.v, "
+        "FnCall.v, FnBody.v, DefShape.v).",
         "programs with nested calls, same-named globals, DEFtype settings, arity errors and recursion on model and crate, compared with Spec/Sem.v, "
         "which binds parameters in a local environment typed by their own names.",
-        "PARTIAL: bodies that call functions or read arrays (nesting), the layout of DEF's code as emitted by the code generator, and recursion "
-        "ending in OUT OF MEMORY are decided by the monitor, not proved.",
+        "PARTIAL: bodies that call functions or read arrays (nesting) and recursion ending in OUT OF MEMORY are decided by the monitor, not proved.",
         "Coq theorems on the call protocol and on the privacy of parameter names + model/implementation/reference-semantics differential check"),
     "C11": entry(
         "the cursor column is the number of characters since the last newline, across items and statements; ',' prints 14 - col mod 14 blanks; TAB(n) "
@@ -161,12 +161,13 @@ CLAIMED = {
         "emptied continuation slot, trace marker and direct-code area -- for every machine with a linked program, and likewise for every machine at the "
         "prompt whose slot holds a running program (STOP, END, errors); no instruction reads those fields while the slot is empty and tracing is off, "
         "so with the cursor in column 0 at the interrupt the execute calls after CONT return exactly the events of the uninterrupted machine, for one "
-        "call and for any sequence of calls during which the reference run stays inside the program and keeps running "
-        "(Props/C13.v, Proofs/Slicing.v, ContTrip.v, DeadFields.v, ContRun.v).",
+        "call and for any sequence of calls during which the reference run stays inside the program and keeps running; the same for the STOP and "
+        "END statements inside the program: after the report, the prompt and CONT the call returns what the machine would have returned had the "
+        "statement been skipped (Props/C13.v, Proofs/Slicing.v, ContTrip.v, DeadFields.v, ContRun.v).",
         "the same sessions under seven quanta, interrupted after every k-th execute(1) call with optional inspection and CONT, with STOP inserted at "
         "statement boundaries, and programs waiting for keys (INKEY$) interrupted while each wait is pending; outputs must equal the uninterrupted run modulo the ?BREAK block and its forced line break.",
-        "PARTIAL: the cursor beyond column 0 at the interrupt (one line break is forced by design, after which TAB, POS and print zones differ), runs "
-        "that trace, calls that cross an INPUT / INKEY$ wait, and the END / STOP statements end to end are decided by the monitor, not proved.",
+        "PARTIAL: the cursor beyond column 0 at the interruption (one line break is forced by design, after which TAB, POS and print zones differ), "
+        "runs that trace, and calls that cross an INPUT / INKEY$ wait are decided by the monitor, not proved.",
         "Coq slicing theorem + schedule-enumerating differential and relational check"),
     "C14": entry(
         "the change map is built completely before any line is touched (a failing RENUM leaves the listing as it was); lines below old-start are not in "
@@ -248,11 +249,18 @@ CLAIMED = {
         "appending a fragment places its code unchanged behind the existing code; linking patches every recorded reference whose symbol is defined with "
         "that symbol's address, touches no other instruction and changes only the address operand; a line symbol records the address at which the line "
         "starts, whatever precedes it; for whole programs of any statements compiled without error: statement code defines only negative local symbols, "
-        "so the symbol of line n is the address where the code of the lines before n ends, whatever lines come before or after (Props/C20.v, Proofs/Reloc.v, SymSeg.v).",
+        "so the symbol of line n is the address where the code of the lines before n ends, whatever lines come before or after; a line that generates "
+        "no code (remark, empty statement) is invisible: with it or without it the compiled program has the same instructions, DATA, open references and "
+        "WHILE records, and -- when nothing refers to it and code follows it -- the linked program has the same instructions, DATA and direct-code address; "
+        "the same relation holds when the statements of one line are given as two consecutive lines; a direct line of address-free instructions (what LET, "
+        "PRINT, DIM, SWAP, ERASE, DEFtype, MID$=, CLS compile to) closed by END runs the same, event for event, whatever program and listing are in memory "
+        "and wherever its code sits behind them (Props/C20.v, Proofs/Reloc.v, SymSeg.v, EmptyLine.v, DirectShift.v).",
         "generated programs under REM / empty / unreachable line insertion, line splitting, other numberings (including from line 0 with references to the "
         "first line), extra program text behind a direct statement, direct vs one-line-program execution, on model and crate; transcripts must agree modulo "
         "reported line numbers.",
-        "PARTIAL: layout independence of whole programs is compiler correctness for control flow; it is decided by the relational monitor, not proved.",
+        "PARTIAL: renumbering, unreachable code, direct lines that branch or loop with another program in memory, and that the run of the linked "
+        "program reports the same thing modulo line numbers (the theorems give identical instructions, not yet identical runs) are decided by the "
+        "relational monitor, not proved.",
         "Coq theorems on append and link + layout-transformation relational check"),
 }
 
